@@ -714,7 +714,32 @@ class DAGRunConcurrentManager(DAGRunManagerLike):
                 dag=dag,
             )
 
-            if isinstance(result, Recurrent):
+            is_recurrent = isinstance(result, Recurrent)
+
+            # A concurrent request for a node that has already been executed returns the stored result,
+            # which must not be saved as an artifact for the second time
+            is_stored = (
+                self._node_storage.exists_node_result(node_id)
+                and self._node_storage.get_node_result(node_id) is result
+            )
+
+            # The artifact is saved before the result is published: once the result is visible, the consumers and
+            # the run itself may go on and finish, and a save which is still in flight would be cancelled.
+            # TODO: Needs to reorganize saving policy for artifact storage
+            if not is_stored:
+                await self.ctx.save_node_result(node_id, result)
+
+            if is_recurrent:
+                # We shouldn't unlock the node's descendants if we have to perform recurrent subgraph.
+                # It has to be this way because the node, which has `Recurrent` result,
+                # will be executed again and the function will unlock the descendants in the other branch.
+                # If the artifact could not be saved, nothing is going to be executed again: the error is reported.
+                to_unlock_descendants = False
+
+            logger.debug('Save the result "%s" for the node %s', result, node_id)
+            self._node_storage.set_node_result(node_id, result)
+
+            if is_recurrent:
                 # The subgraph which is already being iterated handles the result itself. The check has to be done
                 # here and not only when the new task starts: by that time the active subgraph may have finished,
                 # and the late task would iterate the subgraph once again.
@@ -731,25 +756,6 @@ class DAGRunConcurrentManager(DAGRunManagerLike):
                             dag=dag,
                         ),
                     )
-
-                # We shouldn't unlock the node's descendants if we have to perform recurrent subgraph.
-                # It has to be this way because the node, which has `Recurrent` result,
-                # will be executed again and the function will unlock the descendants in the other branch.
-                to_unlock_descendants = False
-
-            # A concurrent request for a node that has already been executed returns the stored result,
-            # which must not be saved as an artifact for the second time
-            is_stored = (
-                self._node_storage.exists_node_result(node_id)
-                and self._node_storage.get_node_result(node_id) is result
-            )
-
-            logger.debug('Save the result "%s" for the node %s', result, node_id)
-            self._node_storage.set_node_result(node_id, result)
-
-            # TODO: Needs to reorganize saving policy for artifact storage
-            if not is_stored:
-                await self.ctx.save_node_result(node_id, result)
 
         finally:
             if not to_unlock_descendants:
